@@ -98,22 +98,22 @@ func main() {
 	// ---------------- bounds per tier ----------------
 	ordAlpha := []int64{1, 2, 3, 5, 10}
 	ordMaxN := 4
-	ordCfg := rotCfg{maxStart: 6, maxTotal: 6, periods: 3}
+	ordCfg := rotCfg{maxStart: 6, maxTotal: 7, periods: 3}
 	extAlpha := []int64{1, M / 4, M / 2, M/2 + 1, M - 1, M}
 	extMaxN := 3
-	extCfg := rotCfg{maxStart: 4, maxTotal: 5, periods: 3, window: 2000}
+	extCfg := rotCfg{maxStart: 4, maxTotal: 6, periods: 3, window: 2000}
 	permExtra := [][]int64{}
 	setSearch := setCfg{ids: 3, powers: []int64{1, 3, M/2 + 1}, altCB: true}
-	setDepth := 5
+	setDepth := 6
 	usSearch := usCfg{ids: 3, powers: []int64{1, 3}, altCB: true}
-	usDepth := 3
+	usDepth := 4
 	if !r.Quick() {
 		ordAlpha = []int64{1, 2, 3, 5, 10, 100}
 		ordMaxN = 5
-		ordCfg = rotCfg{maxStart: 10, maxTotal: 10, periods: 3}
+		ordCfg = rotCfg{maxStart: 8, maxTotal: 9, periods: 3}
 		extAlpha = []int64{1, 2, M / 4, M / 2, M/2 + 1, M - 1, M}
 		extMaxN = 4
-		extCfg = rotCfg{maxStart: 6, maxTotal: 8, periods: 3, window: 5000}
+		extCfg = rotCfg{maxStart: 5, maxTotal: 7, periods: 3, window: 5000}
 		permExtra = enumSets([]int64{1, 3}, 6, 6)
 		setSearch = setCfg{ids: 4, powers: []int64{1, 3, M/2 + 1}, altCB: true}
 		setDepth = 6
@@ -154,7 +154,7 @@ func main() {
 			}
 		}
 	}
-	var states, calls, comps, clipSets, propDiff, accumDiff, setsF8, equalF8, zeroPeriods, nonClip, starvedSets, tooLong int
+	var states, calls, comps, clipSets, propDiff, accumDiff, setsF8, equalF8, zeroPeriods, nonClip, starvedSets, tooLong, equalOrdF8 int
 	var worstDev float64
 	var starvedSample, devSample string
 	var equalSample []string
@@ -175,6 +175,9 @@ func main() {
 				if p != jobs[i].powers[0] {
 					eq = false
 				}
+			}
+			if eq && i < nOrd {
+				equalOrdF8++
 			}
 			if eq {
 				equalF8++
@@ -214,7 +217,7 @@ func main() {
 		"sets_where_saturation_occurred": clipSets, "sets_without_saturation": nonClip, "sets_without_saturation_but_period_too_long_for_proportionality": tooLong,
 		"proportionality_periods_checked_per_set": ordCfg.periods, "sets_whose_priorities_return_to_zero_after_one_period": zeroPeriods,
 		"batch_vs_single_cases_proposer_differs": propDiff, "batch_vs_single_cases_only_priorities_differ": accumDiff,
-		"batch_vs_single_sets_affected": setsF8, "batch_vs_single_equal_power_sets_affected": equalF8, "batch_vs_single_equal_power_samples": equalSample,
+		"batch_vs_single_sets_affected": setsF8, "batch_vs_single_equal_power_sets_affected": equalF8, "batch_vs_single_equal_power_sets_affected_without_saturation": equalOrdF8, "batch_vs_single_equal_power_samples": equalSample,
 		"saturating_sets_with_starved_validator(measured,not asserted)": starvedSets, "starved_sample": starvedSample,
 		"saturating_sets_worst_share_deviation(measured)": worstDev, "worst_share_deviation_set": devSample,
 	})
